@@ -228,7 +228,8 @@ let eval (prop : string) (input : Sx.t) (obs : Sx.t) : Sx.t list * bool * bool *
                     let route_ok = List.exists (fun p -> match Sx.args p with [k; v] -> str k = s_route && str v = render_route r | _ -> false) ps in
                     let forms = List.filter (fun f -> f.RouteSpec.f_rid = nat_of_int rid) fs in
                     let ok = List.exists (fun f ->
-                      List.exists (fun d -> norm (List.map (fun (k, v) -> (k, decode1 v)) d) = norm obs_ps)
+                      (* a bind named "route" is shadowed by the reserved parameter of that name *)
+                      List.exists (fun d -> norm (List.filter (fun (k, _) -> k <> s_route) (List.map (fun (k, v) -> (k, decode1 v)) d)) = norm obs_ps)
                         (adm_params f.RouteSpec.f_kinds segs)) forms in
                     if not (ok && route_ok) then fail (Printf.sprintf "request %s: delivered params %s are not a capture of route %d" (Sx.show op) (Sx.show o) at);
                     if List.exists (fun f -> List.exists (function KRegex _ -> true | _ -> false) f.RouteSpec.f_kinds) forms then nontrivial := true
@@ -250,12 +251,13 @@ let eval (prop : string) (input : Sx.t) (obs : Sx.t) : Sx.t list * bool * bool *
              let name = ocaml_string_of_str (str (List.hd (Sx.args rb))) in
              let (_, _, _, froute) = List.find (fun (_, x, _, _) -> x = int_of_nat frid) h.accepted in
              let build extra_pairs = (match List.assoc_opt name h.named with
-               | Some r -> sx_str (router_url_path r (List.concat_map (fun (k, v) -> [k; v]) ps @ extra_pairs))
+               | Some r -> sx_str (router_url_path r (List.concat_map (fun (k, v) -> [k; v]) (List.filter (fun (k, _) -> k <> s_route) ps) @ extra_pairs))
                | None -> Sx.A "panic") in
              let a = build [] and b = build [s_with_optional; s_true] in
              (match rebuilt with
               | Some (oa, ob) ->
-                  if not (List.exists (fun c -> int_of_n c = 37) path) && List.assoc_opt name h.named = Some froute then begin
+                  if not (List.exists (fun c -> int_of_n c = 37) path) && List.assoc_opt name h.named = Some froute
+                     && not (List.mem_assoc s_route ps) (* the value of a bind named "route" is not delivered *) then begin
                     let want = sx_str (c_slash :: join_slash segs) in
                     if oa <> want && ob <> want then fail (Printf.sprintf "request %s: URLPath of the delivered params gives %s / %s, not the request path" (Sx.show op) (Sx.show oa) (Sx.show ob));
                     nontrivial := true
